@@ -55,6 +55,12 @@ WriteChanges(p) == \E r \in Reqs(ws[p].d), h \in {"none", "match", "stale"} :
   /\ LET arg == [NoArg EXCEPT !.req = r, !.hash = h] IN
      IF h = "stale" THEN Step("amend", p, arg, FALSE, ws)
      ELSE Step("amend", p, arg, TRUE, [ws EXCEPT ![p].d = Apply1(@, r)])
+(* octave_write(content, mutations): the META overrides of `mutations` are applied to the content sent *)
+MetaReqs(d) == {r \in Reqs(d) : IsMetaKey(r.key)}
+WriteMutated(p) == \E c \in Contents : \E m \in MetaReqs(c) :
+  Step("write_mutated", p, [NoArg EXCEPT !.lines = Render(c), !.final = c.g.final, !.req = m], TRUE, [ws EXCEPT ![p] = File(Apply1(c, m))])
+(* a preview of an amendment (changes + corrections_only): nothing moves, now or later *)
+DryChanges(p) == \E r \in Reqs(ws[p].d) : ws[p].st = "file" /\ Step("dry_amend", p, [NoArg EXCEPT !.req = r], TRUE, ws)
 (* dry run: corrections_only *)
 DryRun(p) == \E c \in Contents : Step("dry", p, [NoArg EXCEPT !.lines = Render(c), !.final = c.g.final], TRUE, ws)
 (* readers: the file is an argument, never a result *)
@@ -70,7 +76,7 @@ Remove(p) == ws[p].st = "file" /\ Step("remove", p, NoArg, TRUE, [ws EXCEPT ![p]
 SInit == Init /\ reqs = <<>> /\ ws = [p \in Paths |-> Gone] /\ log = <<>>
 SGrow == log = <<>> /\ AddItem /\ UNCHANGED <<reqs, ws, log>>
 Serve == /\ Len(log) < MaxSteps /\ (doc.body # <<>> \/ doc.meta # <<>>)
-         /\ \E p \in Paths : WriteContent(p) \/ WriteChanges(p) \/ DryRun(p) \/ Validate(p) \/ Eject(p) \/ SealFile(p)
+         /\ \E p \in Paths : WriteContent(p) \/ WriteChanges(p) \/ WriteMutated(p) \/ DryChanges(p) \/ DryRun(p) \/ Validate(p) \/ Eject(p) \/ SealFile(p)
                              \/ Normalize(p) \/ Edit(p) \/ Remove(p)
 SNext == SGrow \/ Serve
 
